@@ -1,6 +1,7 @@
 package main
 
 import (
+	"bytes"
 	"encoding/binary"
 	"encoding/hex"
 	"fmt"
@@ -357,6 +358,18 @@ func genItem(r *rng, depth int, out *[]byte, tagged bool) {
 
 func genCborDec(tier string, seed uint64) {
 	r := &rng{s: seed}
+	// 0. large definite strings, whole and cut short at several points (bulk reads past the reader's first buffer sizes)
+	for _, major := range []byte{0x40, 0x60} {
+		for _, n := range []int{65535, 65536, 65537, 131072, 200000} {
+			item := append(headBytes(major, uint64(n), 0), bytes.Repeat([]byte{0x61}, n)...)
+			emitDec(item)
+			for _, cut := range []int{5, 4096, 65536, 65541, 70000, n - 1} {
+				if cut < len(item) {
+					emitDec(item[:cut])
+				}
+			}
+		}
+	}
 	// 1. exhaustive: all strings of length <= 2 over all bytes; length 3 (and 4 in thorough) over the alphabet
 	emitDec(nil)
 	for a := 0; a < 256; a++ {
